@@ -357,6 +357,10 @@ class CallMixin(ExprMixin):
             return smt.fresh(name, sort_of_type(t))
         if t == "none":
             return None
+        if t == "nat":
+            v = smt.fresh(name, smt.I)  # a ghost counter: non-negative wherever it is introduced
+            st.assume(v >= 0)
+            return v
         if t == "xreal":
             return XReal(smt.fresh(name + "_isinf", smt.Bo), smt.fresh(name, smt.R))
         if t == "str":
